@@ -192,11 +192,11 @@ def check_route(case):
                 "although every working chip can reach every other over "
                 "working links", {"error": str(e)})
         return {"documented": True, "classes": cls + ["raised"]}
-    name_of = dict((id(o) if case["vkind"] == "obj" else o, n)
+    name_of = dict((id(o) if case["vkind"] in ("obj", "idobj") else o, n)
                    for n, o in vobj.items())
 
     def nm(o):
-        return name_of.get(id(o) if case["vkind"] == "obj" else o)
+        return name_of.get(id(o) if case["vkind"] in ("obj", "idobj") else o)
     require(isinstance(routes, dict) and len(routes) == len(nets) and
             all(n in routes for n in nets), "route does not return one tree "
             "per net", {})
